@@ -178,6 +178,8 @@ def _payload(kind):
         m.contact_message.vcard = b"BEGIN:VCARD"
     elif kind == "call":
         m.call.call_key = b"k"
+    elif kind == "protocol-without-key":
+        m.protocol_message.type = 0                # a protocol message that names no message key (what newer clients send for settings changes, history sync ...)
     return m.SerializeToString()
 
 
@@ -222,6 +224,23 @@ def h_unsupported_message(ctx, kind, flags, enc):
     return obs
 
 
+def h_unsupported_encrypted(ctx, enctype):
+    """an ENCRYPTED message whose decrypted payload only uses fields newer than the library's schema (a reaction, a poll): it is an
+    unsupported message like any other -- exactly one ordinary receipt, no retry request (the sender would resend it for ever)"""
+    from checks import c03
+    unknown_only = b"\xf2\x02\x03abc"                 # field 46, length-delimited: not in the bundled schema
+    st, bottom, app, mgr, sl, rl = c03._stack(ctx, sessions=True, outcome="ok", plaintext=unknown_only)
+    N = SC.N()
+    mid, mfrom = H.zstr(ctx, "id"), c03._jid(ctx, "from")
+    bottom.inject(N("message", {"id": mid, "from": mfrom, "type": "text", "t": H.numstr(ctx, "t", 1), "notify": H.zstr(ctx, "notify")}, [N("enc", {"type": enctype, "v": "2"}, None, b"\x33\x08ciphertext")]))
+    rs = _count(bottom.down, "receipt")
+    obs = [("exactly-one-receipt (got %d)" % len(rs), len(rs) == 1), ("nothing-delivered-to-application", len(app.up) == 0)]
+    if len(rs) == 1:
+        obs.append(("the receipt is an ordinary one, not a retry request", not (SC.val_eq(_attr(rs[0], "type"), "retry") is True) and rs[0].getChild("retry") is None))
+        obs.append(("receipt-id", SC.val_eq(_attr(rs[0], "id"), mid)))
+    return obs
+
+
 def _media_on(flags):
     fs = ST.all_flag_sets()[flags] if flags in ST.all_flag_sets() else ST.FLAG_SETS[flags]
     return fs["media"]
@@ -237,7 +256,7 @@ NOTIFS = ("SetPictureNotificationProtocolEntity", "DeletePictureNotificationProt
           "AddContactNotificationProtocolEntity", "RemoveContactNotificationProtocolEntity", "UpdateContactNotificationProtocolEntity",
           "ContactsSyncNotification", "AddGroupsNotification", "CreateGroupsNotification", "RemoveGroupsNotification", "SubjectGroupsNotification",
           "RequestKeysEncryptNotification", "IdentityChangeNotification")
-PAYLOADS = ("empty", "protocol-revoke", "image-without-mediatype", "location-without-mediatype", "contact-without-mediatype", "call", "unknown-mediatype", "media-without-mediatype")
+PAYLOADS = ("empty", "protocol-revoke", "protocol-without-key", "image-without-mediatype", "location-without-mediatype", "contact-without-mediatype", "call", "unknown-mediatype", "media-without-mediatype")
 
 
 def cases(tier):
@@ -256,4 +275,6 @@ def cases(tier):
             cs.append(dict(name="ping[%s]" % tag, fn=h_ping, args=(fl, enc)))
             for k in PAYLOADS:
                 cs.append(dict(name="unsupported-message[%s,%s]" % (k, tag), fn=h_unsupported_message, args=(k, fl, enc)))
+    for enctype in ("msg", "pkmsg"):
+        cs.append(dict(name="unsupported-encrypted-message[%s,fields newer than the schema]" % enctype, fn=h_unsupported_encrypted, args=(enctype,)))
     return cs
